@@ -405,11 +405,14 @@ pub struct VtChoices {
 	/// equal payloads inside a block share one offset (any size)
 	pub share: bool,
 	pub max_gap: usize,
+	/// exactly this many padding bytes between consecutive tile blobs of a block (0 = none): seeks the
+	/// reader's chunk rules (32 KiB gap, 64 MiB chunk)
+	pub exact_gap: usize,
 	pub bbox: [i32; 4],
 }
 impl VtChoices {
 	pub fn plain(fmt: Fmt, comp: Comp) -> VtChoices {
-		VtChoices { fmt, comp, meta: None, range_mode: 0, empty_block: false, shuffle_blocks: false, shuffle_index: false, blob_order: 0, share: false, max_gap: 0, bbox: [-1800000000, -850511287, 1800000000, 850511287] }
+		VtChoices { fmt, comp, meta: None, range_mode: 0, empty_block: false, shuffle_blocks: false, shuffle_index: false, blob_order: 0, share: false, max_gap: 0, exact_gap: 0, bbox: [-1800000000, -850511287, 1800000000, 850511287] }
 	}
 }
 pub struct VtEncoded {
@@ -523,6 +526,9 @@ pub fn encode_versatiles(tiles: &TileMap, ch: &VtChoices, rng: &mut Rng) -> VtEn
 				}
 			}
 			gap(&mut out, rng, ch.max_gap);
+			if ch.exact_gap > 0 && out.len() > block_off {
+				out.extend(std::iter::repeat(0xEDu8).take(ch.exact_gap));
+			}
 			let l = ((out.len() - block_off) as u64, p.len() as u32);
 			out.extend_from_slice(p);
 			placed.insert(p, l);
